@@ -42,15 +42,77 @@ import (
 //	        values.  NaN is not a stream value (it differs from itself, so "the
 //	        number of distinct values" is not defined for it); it is used in
 //	        one place only, see elems.nan.
+//
+// Kinds with FEW values (elems.card > 0).  T is any comparable type, also one
+// with a single value or with two:
+//
+//	unit    struct{}: one value, zero bytes
+//	zarr    [0]int: one value, zero bytes
+//	znest   a struct of zero-size fields (an empty array of strings, an empty
+//	        struct, an array of three empty structs): one value, zero bytes
+//	bool    two values, one byte
+//	u8      256 values, one byte
+//
+// Stream value x stands for element x mod card, and the reference model sees
+// the stream after that reduction (collapse): a Counter[struct{}] has Count 1
+// after any number of Adds and 0 after Reset, Len <= 1, whatever its buffer
+// size; a Counter[bool] of size 2 leaves the exact regime with its second
+// value like every other counter whose buffer fills.
 const (
-	kindA64  = "a64"
-	kindA512 = "a512"
+	kindA64   = "a64"
+	kindA512  = "a512"
+	kindUnit  = "unit"
+	kindZArr  = "zarr"
+	kindZNest = "znest"
+	kindBool  = "bool"
+	kindU8    = "u8"
 )
 
-// detKinds are the kinds the det, stat and reuse generators draw besides "";
-// hugeKinds those of the huge leg (streams of several hundred thousand values,
-// every one of which costs an allocation for ptr/any).
-var detKinds = []string{elem.Int, elem.Str, elem.I16, elem.Wide, elem.Ptr, elem.Any, elem.F64, kindA64, kindA512}
+// zNest has no bytes: every field is of size zero.
+type zNest struct {
+	A [0]string
+	B struct{}
+	C [3]struct{}
+}
+
+// baseKinds are the kinds with more values than any stream has: the stat and
+// reuse generators draw them besides "".  detKinds adds the kinds with few
+// values and is what the det generator draws.  (The huge leg lists its shapes,
+// the long leg its kinds: streams of several hundred thousand values.)
+var baseKinds = []string{elem.Int, elem.Str, elem.I16, elem.Wide, elem.Ptr, elem.Any, elem.F64, kindA64, kindA512}
+var fewKinds = []string{kindUnit, kindZArr, kindZNest, kindBool, kindU8}
+var detKinds = append(append([]string(nil), baseKinds...), fewKinds...)
+
+// cardOf is the number of values of a kind with few values, 0 for the others.
+func cardOf(kind string) int {
+	switch kind {
+	case kindUnit, kindZArr, kindZNest:
+		return 1
+	case kindBool:
+		return 2
+	case kindU8:
+		return 256
+	}
+	return 0
+}
+
+// collapse returns the stream as the reference model has to see it: value x of
+// a kind with few values is the value x mod card.  Negative entries (Reset,
+// skipped values) stay.  The streams of the other kinds are returned as is.
+func collapse(kind string, vs []int) []int {
+	card := cardOf(kind)
+	if card == 0 {
+		return vs
+	}
+	out := make([]int, len(vs))
+	for i, v := range vs {
+		if v >= 0 {
+			v %= card
+		}
+		out[i] = v
+	}
+	return out
+}
 
 type elems[T comparable] struct {
 	kind string
@@ -63,6 +125,9 @@ type elems[T comparable] struct {
 	// det stream of the f64 kind adds it once before a Reset while that cannot
 	// trigger a halving pass, and only the state after the Reset is checked.
 	nan *T
+	// card > 0: the kind has card values only and of(x) is the element of
+	// x mod card (see collapse).
+	card int
 }
 
 // kindName is the label of the elem=<kind> class.
@@ -209,6 +274,26 @@ func a512Elems() *elems[[512]byte] {
 		}
 		return a
 	}}
+}
+
+func unitElems() *elems[struct{}] {
+	return &elems[struct{}]{kind: kindUnit, max: anyInt, card: 1, of: func(int) struct{} { return struct{}{} }}
+}
+
+func zarrElems() *elems[[0]int] {
+	return &elems[[0]int]{kind: kindZArr, max: anyInt, card: 1, of: func(int) [0]int { return [0]int{} }}
+}
+
+func znestElems() *elems[zNest] {
+	return &elems[zNest]{kind: kindZNest, max: anyInt, card: 1, of: func(int) zNest { return zNest{} }}
+}
+
+func boolElems() *elems[bool] {
+	return &elems[bool]{kind: kindBool, max: anyInt, card: 2, of: func(x int) bool { return x%2 == 1 }}
+}
+
+func u8Elems() *elems[uint8] {
+	return &elems[uint8]{kind: kindU8, max: anyInt, card: 256, of: func(x int) uint8 { return uint8(x % 256) }}
 }
 
 // ptrElems and anyElems keep the element made for a stream value: the second
